@@ -104,11 +104,35 @@ abbrev Config := List Val
 
 /-! ### membership -/
 
-/-- declared kind **and** inclusive bounds / declared choice (typed equality) -/
+def Val.isInt : Val → Bool
+  | .int _ => true
+  | _ => false
+
+def Val.isReal : Val → Bool
+  | .real _ => true
+  | _ => false
+
+/-- a Python `int` or `float` (not `bool`, not `str`) -/
+def Val.isNum : Val → Bool
+  | .int _ | .real _ => true
+  | _ => false
+
+/-- a numeric sequence that mixes `int` and `float` values (the legal short-hand
+`[1, 2.5, 4.5, 8]`): the sequence has no single kind -/
+def mixedNum (cs : List Val) : Bool := cs.all Val.isNum && cs.any Val.isInt && cs.any Val.isReal
+
+/-- being a declared choice: the choice itself (typed equality — `2.0` is not the declared `2`
+of an all-`int` sequence, `True` is not the declared `1`); on a sequence that mixes ints and floats
+a number equal (Python `==`) to a declared one: the numeric-ordinal "identity" transformer hands
+such a sequence back as floats (`1.0` for the declared `1`), which is the declared value -/
+def memChoice (cs : List Val) (v : Val) : Bool :=
+  decide (v ∈ cs) || (mixedNum cs && v.isNum && cs.any (pyEq v))
+
+/-- declared kind **and** inclusive bounds / declared choice -/
 def memDim : Dim → Val → Bool
   | .int lo hi _, .int i => decide (lo ≤ i) && decide (i ≤ hi)
   | .real lo hi _, .real q => decide (lo ≤ q) && decide (q ≤ hi)
-  | .cat cs, v => decide (v ∈ cs)
+  | .cat cs, v => memChoice cs v
   | _, _ => false
 
 /-- the canonical value of an inactive hyperparameter: lower bound / first choice
@@ -219,16 +243,15 @@ def Hp.wf (h : Hp) : Bool :=
 
 def Decl.wf (d : Decl) : Bool := d.hps.all (fun h => h.wf)
 
-/-- the numeric-ordinal ("identity") transformer is only used on homogeneous sequences: all
-`int` or all `float` (`convert_to_skopt_dim`; a mixed sequence would come back as floats) -/
+/-- the numeric-ordinal ("identity") transformer is only used on numeric sequences: all `int`,
+all `float`, or a mix of the two (`convert_to_skopt_dim`; a mixed sequence comes back as floats) -/
 def Hp.wfTr (h : Hp) : Bool :=
   match h.dim, h.tr with
-  | .cat cs, .identity =>
-    cs.all (fun c => match c with | .int _ => true | _ => false) ||
-    cs.all (fun c => match c with | .real _ => true | _ => false)
+  | .cat cs, .identity => cs.all Val.isNum
   | _, _ => true
 
-/-- well-formedness used by the theorems: non-empty dimensions, homogeneous numeric ordinals -/
+/-- well-formedness used by the theorems: non-empty dimensions, numeric ordinals only under the
+"identity" transformer -/
 def Decl.wfAll (d : Decl) : Bool := d.wf && d.hps.all (fun h => h.wfTr)
 
 /-- `Space.config_space is None`: no condition and no forbidden clause -/
@@ -357,7 +380,7 @@ def invDim (ne : NumEnv) (h : Hp) (t : Slice) : Option Val :=
     else if t.length = cs.length then cs[argmax t]? else none
   | .cat cs, .identity, [v] =>
     -- `Identity(type_func=int)` when every choice is an int, else the float itself
-    if cs.all (fun c => match c with | .int _ => true | _ => false) then some (.int (trunc v))
+    if cs.all Val.isInt then some (.int (trunc v))
     else some (.real v)
   | _, _, _ => none
 
